@@ -54,7 +54,7 @@ def main():
         d = VERIF / 'seeded' / sid
         meta = json.loads((d / 'meta.json').read_text())
         pid = meta['property']
-        wt = f'/tmp/seedwt-{sid}'
+        wt = f'/tmp/seedwt-{sid}-{os.getpid()}'        # unique: several runs may be going on (another snapshot of /verif)
         sh(f'git -C {REPO} worktree remove --force {wt}')
         r = sh(f'git -C {REPO} worktree add --detach {wt} HEAD')
         if r.returncode != 0:
@@ -126,7 +126,7 @@ def main():
             sh(f'git -C {REPO} worktree remove --force {wt}')
             shutil.rmtree(wt, ignore_errors=True)
             for w in (Path(__file__).resolve().parent.parent / 'work').glob('*-_tmp_seedwt_*'):
-                if w.name.endswith(sid.replace('-', '_')):
+                if w.name.endswith(sid.replace('-', '_') + '_' + str(os.getpid())):
                     shutil.rmtree(w, ignore_errors=True)
     sys.exit(rc)
 
